@@ -312,6 +312,9 @@ def finish(W, ob, ops, do_close=True, rounds=6):
         if c0.svc.stopping is not None and not c0.svc.stopping.called:
             emit(["svc_stopped", 0])
             progressed = True
+        if c0.eq._calls:
+            emit(["turn", 0])
+            progressed = True
         if not progressed:
             break
 
@@ -410,6 +413,10 @@ def guided(seed, n_ops, profile, welcome_error=None, finish_run=False):
                     choices += [["swapmsg", 0, rng.randrange(4), rng.randrange(4)]] * 2
             if c0.svc.stopping is not None and not c0.svc.stopping.called:
                 choices += [["svc_stopped", 0]] * 4
+            if c0.eq._calls:
+                # nothing of the delegated client is supposed to depend on eventual-queue turns, but if
+                # something was queued it must run (and must not fail) at some point
+                choices += [["turn", 0]] * 3
             if not st["closed"]:
                 if not st["code_started"]:
                     if mode == "set":
